@@ -91,7 +91,9 @@ claim("C12", "DESIGN.md 5/C12", "Lean 4 iff-characterisations of load and pre-pa
       "Theorems in MPilot.C12: addCommand_ok_iff (accepted by add_command iff result name fresh, required parameters present, no undeclared parameter unless extras allowed), "
       "addCommand_errors / unknown_command (specific error with the offender's line, in the code's order), prepassCmd_ok_iff (pre-pass accepts iff every declared argument cleans), "
       "prepassCmd_first_error, result_ref_ok_iff (a reference is accepted iff the result exists, has the required fuzziness and an accepted output kind), reject_no_effects "
-      "(a pre-pass error returns with the state untouched). Cleaning itself is characterised in C20.", PB)
+      "(a pre-pass error returns with the state untouched). Whole models: prepass_ok_iff (the pre-pass accepts a model iff every declared argument of every command cleans), fromNodes_ok_iff (a file is loaded iff every command, in file order, "
+      "names a command of the selected libraries and is accepted by add_command on top of what the commands before it built), run_validates_first (run either returns the pre-pass error, or the recursive-model error, each with the state untouched, or evaluates the leaves). "
+      "On the implementation: loads right after a malformed text, additions refused by add_command and then corrected, a file that vanished since an earlier model was validated. Cleaning itself is characterised in C20.", PB)
 claim("C13", "DESIGN.md 5/C13", "Lean 4 theorems on the error algebra of the model + boundary correspondence + exception-type oracle at from_source()/run() and CLI subprocess runs",
       "Theorems in MPilot.C13: runCmd_not_raw (nothing but MPilotErrors leaves Command.run, whatever fails inside), fromNodes_not_raw, prepassCmd_not_raw (load and pre-pass raise "
       "MPilotErrors only, within the model's cleaning domain). A theorem ranges only over exception sources the model contains: new sources in the code are found by the correspondence "
